@@ -5,6 +5,10 @@ import PetgraphModel.Proofs.C16PostOrder
 import PetgraphModel.Proofs.C16Artic
 import PetgraphModel.Proofs.C16Cut
 import PetgraphModel.Driver.C16
+import PetgraphModel.Proofs.C16W2Sf
+import PetgraphModel.Proofs.C16W2Acc
+import PetgraphModel.Proofs.C16W2Driver
+import PetgraphModel.Proofs.C16W2ApMain
 /-
 C16 — dominators and articulation points match their path-based definitions.
 
@@ -19,8 +23,13 @@ immediate dominator is unique and nothing lies between it and the node; the coun
 a cut vertex is the textbook "separates two other nodes").
 Part C: the accessors of the model of `struct Dominators` are the closure / inverse of the idom map.
 Part D: the mirror model of `simple_fast`: soundness half of the Cooper–Harvey–Kennedy fixed point
-(proved) and the full statement; the mirror model of `articulation_points`: structural facts
-(proved) and the full statement.
+(`C16_simple_fast_partial`) and **full correctness** (`C16_simple_fast`: termination within the
+model's fuel without panic, soundness and completeness; `C16_simple_fast_accessors`); the mirror
+model of `articulation_points`: structural facts, no fault, and the full statement.
+The two `…_statement` definitions kept from the first wave are false as written (they lack the
+hypothesis `SuccBounded` — the view may not repeat a neighbour more often than the abstract graph has
+edges —, `…_statement_false_witness`); the theorems prove the statements repaired by exactly that
+hypothesis.
 -/
 namespace PetgraphModel.C16T
 open PetgraphModel MGraph Oracle C16S C16O C16M C16P
@@ -219,6 +228,82 @@ def C16_simple_fast_statement : Prop :=
       (∀ b, d.dominators b = none ↔ ¬ Reach v.g root b) ∧
       ∀ b l, d.dominators b = some l → l.Nodup ∧ ∀ a, a ∈ l ↔ Dominates v.g root a b
 
+/-- every view accepted by the driver (`viewOkB`: neighbour lists are permutations of the abstract
+graph's) satisfies the extra hypothesis of `C16_simple_fast` / `C16_articulation` -/
+theorem C16_driver_views_bounded (v : View) (h : C16.viewOkB v = true) :
+    ∀ a, a ∈ v.g.nodes → (v.succ a).length ≤ (v.g.succ a).length :=
+  fun a ha => Nat.le_of_eq (viewOkB_succ_length v h a ha)
+
+/-- `C16_simple_fast_statement` is **false as written**: `ViewOk` fixes only the *set* of neighbours
+the encoding enumerates, while the fuel of the model (`postFuel`) is computed from the number of
+nodes and edges of the abstract graph.  Witness: the graph `0 → 1` (one edge) seen through a view
+whose neighbour list of `0` repeats the target 49 times — the `DfsPostOrder` model has to pop 49
+stack entries in one call and reports `FUEL`.  (No view built by the driver is of this kind:
+`Driver/C16.lean` `viewOkB` requires the neighbour lists to be permutations of `MGraph.succ`.)
+The repaired statement `C16_simple_fast` below adds the length half of that (`SuccBounded`). -/
+theorem C16_simple_fast_statement_false_witness : ¬ C16_simple_fast_statement := by
+  intro h
+  let g : MGraph := ⟨true, [0, 1], [⟨0, 0, 1, 1⟩]⟩
+  let v : View := ⟨g, 2, [(0, 0), (1, 1)], [(0, List.replicate 49 (1, 0))], []⟩
+  have hv : ViewOk v := by
+    intro a b
+    by_cases ha : a = 0
+    · subst ha
+      simp only [View.succ, View.outOf, v, g, MGraph.Adj]
+      simp [List.lookup]
+      constructor
+      · rintro rfl; rfl
+      · intro e; exact e.symm
+    · have e0 : (a == 0) = false := by simpa using ha
+      simp only [View.succ, View.outOf, v, g, MGraph.Adj]
+      simp [List.lookup, e0]
+      intro e; exact (ha e.symm).elim
+  obtain ⟨d, hd, _⟩ := h v 0 hv (by simp [v, g]) (by
+    refine ⟨by simp [v, g], ?_⟩
+    intro e he
+    simp only [v, g, List.mem_singleton] at he
+    subst he
+    simp [v, g])
+  have : (match simpleFast v 0 with | .fuel => true | _ => false) = true := by decide
+  rw [hd] at this
+  cases this
+
+/-- **full correctness of the mirrored `simple_fast`** (the repaired `C16_simple_fast_statement`:
+the only addition is `hb`: for no node does the encoding enumerate more neighbours than the abstract
+graph has incident edges — `C16_driver_views_bounded`: true of every view the driver accepts): on every such view and every root the model terminates without panic
+within its fuel, `root()` is the root given, exactly the nodes reachable from the root have an
+entry, and for every such node `dominators(b)` lists — without repetition — exactly the nodes that
+lie on every walk from the root to `b` (soundness *and* completeness of the
+Cooper–Harvey–Kennedy fixed point). -/
+theorem C16_simple_fast (v : View) (root : Nat) (hv : ViewOk v)
+    (hb : ∀ a, a ∈ v.g.nodes → (v.succ a).length ≤ (v.g.succ a).length)
+    (hroot : root ∈ v.g.nodes) (hwf : v.g.WellFormed) :
+    ∃ d, simpleFast v root = .ok d ∧ d.root = root ∧
+      (∀ b, d.dominators b = none ↔ ¬ Reach v.g root b) ∧
+      ∀ b l, d.dominators b = some l → l.Nodup ∧ ∀ a, a ∈ l ↔ Dominates v.g root a b :=
+  W2Chk.simpleFast_total v root hv (postOrder_total v root hv (succBounded_of_nodes v hv hwf hb) hwf hroot)
+
+/-- **the other accessors on the result of the mirrored `simple_fast`** (consequences of
+`C16_simple_fast`): `immediate_dominator(b)` is `Some(a)` exactly when `a` is the strict dominator of
+`b` closest to `b` (`IsIdom`) and `None` exactly for the root and the unreachable nodes;
+`strict_dominators(b)` is `None` exactly for the unreachable nodes and otherwise lists, without
+repetition, exactly the strict dominators; `immediately_dominated_by(n)` is exactly the set of nodes
+whose immediate dominator is `n`. -/
+theorem C16_simple_fast_accessors (v : View) (root : Nat) (hv : ViewOk v)
+    (hb : ∀ a, a ∈ v.g.nodes → (v.succ a).length ≤ (v.g.succ a).length)
+    (hroot : root ∈ v.g.nodes) (hwf : v.g.WellFormed) :
+    ∃ d, simpleFast v root = .ok d ∧
+      (∀ b a, d.immediateDominator b = some a ↔ IsIdom v.g root a b) ∧
+      (∀ b, d.immediateDominator b = none ↔ b = root ∨ ¬ Reach v.g root b) ∧
+      (∀ b, d.strictDominators b = none ↔ ¬ Reach v.g root b) ∧
+      (∀ b l, d.strictDominators b = some l → l.Nodup ∧ ∀ a, a ∈ l ↔ StrictlyDominates v.g root a b) ∧
+      (∀ n m, m ∈ d.immediatelyDominatedBy n ↔ IsIdom v.g root n m) := by
+  obtain ⟨d, hd, h1, h2, h3⟩ := C16_simple_fast v root hv hb hroot hwf
+  have hex : W2Acc.Exact v.g root d := ⟨h1, h2, h3⟩
+  have hwfd := (simpleFast_sound v root d hv (postOrderSpec_of_viewOk v hv root) hd).2.2.2
+  exact ⟨d, hd, W2Acc.idom_iff hex, W2Acc.idom_none_iff hex, W2Acc.strict_none hex,
+    W2Acc.strict_some hex, W2Acc.idb_iff hex hwfd⟩
+
 /-- what `simple_fast` relies on from `DfsPostOrder` (the walker model `Trav.postNext` of C08), proved
 here for every consistent view: run to exhaustion from the root it emits exactly the nodes reachable
 from the root, each once -/
@@ -273,6 +358,73 @@ with usable indices it terminates without panic and returns exactly the cut vert
 def C16_articulation_statement : Prop :=
   ∀ (v : View), ViewOk v → v.g.directed = false → v.g.WellFormed → IndexOk v →
     ∃ l, articulationPoints v = .ok l ∧ l.Nodup ∧ ∀ x, x ∈ l ↔ CutVertex v.g x
+
+/-- `C16_articulation_statement` is **false as written**, for the same reason as
+`C16_simple_fast_statement`: `ViewOk` fixes only the set of neighbours, the fuel `apFuel` is computed
+from the abstract graph.  Witness: the undirected graph `0 – 1` (one edge) seen through a view whose
+neighbour list of `0` repeats `1` 22 times: the model reports `FUEL`. -/
+theorem C16_articulation_statement_false_witness : ¬ C16_articulation_statement := by
+  intro h
+  let g : MGraph := ⟨false, [0, 1], [⟨0, 0, 1, 1⟩]⟩
+  let v : View := ⟨g, 2, [(0, 0), (1, 1)], [(0, List.replicate 22 (1, 0)), (1, [(0, 0)])], []⟩
+  have hsucc0 : ∀ b, b ∈ v.succ 0 ↔ b = 1 := by
+    intro b; simp [View.succ, View.outOf, v, List.lookup]
+  have hsucc1 : ∀ b, b ∈ v.succ 1 ↔ b = 0 := by
+    intro b; simp [View.succ, View.outOf, v, List.lookup]
+  have hsucc : ∀ a, a ≠ 0 → a ≠ 1 → v.succ a = [] := by
+    intro a h0 h1
+    have e0 : (a == 0) = false := by simpa using h0
+    have e1 : (a == 1) = false := by simpa using h1
+    simp [View.succ, View.outOf, v, List.lookup, e0, e1]
+  have hadj : ∀ a b, v.g.Adj a b ↔ (a = 0 ∧ b = 1) ∨ (a = 1 ∧ b = 0) := by
+    intro a b
+    simp only [v, g, MGraph.Adj]
+    simp
+    omega
+  have hv : ViewOk v := by
+    intro a b
+    rw [hadj]
+    by_cases ha : a = 0
+    · subst ha; rw [hsucc0]; omega
+    · by_cases ha1 : a = 1
+      · subst ha1; rw [hsucc1]; omega
+      · rw [hsucc a ha ha1]
+        simp only [List.not_mem_nil, false_iff]
+        omega
+  have hnodes : ∀ a, a ∈ v.g.nodes ↔ a = 0 ∨ a = 1 := by intro a; simp [v, g]
+  have hi : IndexOk v := by
+    refine ⟨rfl, ?_, ?_, ?_⟩
+    · intro a ha
+      rcases (hnodes a).mp ha with rfl | rfl <;> decide
+    · intro a ha t ht
+      rcases (hnodes a).mp ha with rfl | rfl
+      · exact (hnodes t).mpr (Or.inr ((hsucc0 t).mp ht))
+      · exact (hnodes t).mpr (Or.inl ((hsucc1 t).mp ht))
+    · intro a b ha hb
+      rcases (hnodes a).mp ha with rfl | rfl <;> rcases (hnodes b).mp hb with rfl | rfl <;> decide
+  obtain ⟨l, hl, _⟩ := h v hv rfl (by
+    refine ⟨by simp [v, g], ?_⟩
+    intro e he
+    simp only [v, g, List.mem_singleton] at he
+    subst he
+    simp [v, g]) hi
+  have : (match articulationPoints v with | .error _ => true | _ => false) = true := by decide
+  rw [hl] at this
+  cases this
+
+/-- **full correctness of the mirrored `articulation_points`** (the repaired
+`C16_articulation_statement`; the only addition is `hb`: for no node does the encoding enumerate more
+neighbours than the abstract graph has incident edges — `C16_driver_views_bounded`): on every
+undirected view with usable indices the iterative Tarjan low-link search terminates within the
+model's fuel without panic and returns, without repetition, exactly the cut vertices — the nodes
+whose removal increases the number of connected components (multigraphs with parallel edges and
+self-loops, any number of components, any neighbour order, any injective `to_index` below
+`node_bound()`). -/
+theorem C16_articulation (v : View) (hv : ViewOk v)
+    (hb : ∀ a, a ∈ v.g.nodes → (v.succ a).length ≤ (v.g.succ a).length)
+    (hu : v.g.directed = false) (hwf : v.g.WellFormed) (hi : IndexOk v) :
+    ∃ l, articulationPoints v = .ok l ∧ l.Nodup ∧ ∀ x, x ∈ l ↔ CutVertex v.g x :=
+  articulationPoints_correct v hv (succBounded_of_nodes v hv hwf hb) hu hwf hi
 
 /-- proved part: the search never inserts a node twice into its result set, and every index it
 reports carries a discovery time, i.e. was visited by the search.
